@@ -71,5 +71,7 @@ func symxC04B() {
 			}
 		}
 	}
-	rt.Cover(ref[0].live && ref[1].live && ref[0].sec == ref[1].sec && ref[0].nsec == ref[1].nsec, "C04.list.equal_deadlines")
+	if rt.Param("k1", -1) < 0 {
+		rt.Cover(ref[0].live && ref[1].live && ref[0].sec == ref[1].sec && ref[0].nsec == ref[1].nsec, "C04.list.equal_deadlines")
+	}
 }
